@@ -312,6 +312,10 @@ def run_life_check(pid, tier, seed, replay=None, pre=None):
                 n0 = nl
                 with open(tp, "rb") as fh:
                     for line in fh:
+                        if not (line.startswith(b'{"ev":') and line.rstrip().endswith(b"}")) or b":null" in line:
+                            # a damaged line: the harness process died while writing; what it was doing is
+                            # reported like a watchdog abort (no action of the specification explains it)
+                            line = b'{"ev":"abort","op":"unknown","why":"the harness process ended abnormally"}\n'
                         out.write(line)
                         nl += 1
                 ranges.append((n0 + 1, nl, invocations[len(ranges)]))
